@@ -86,7 +86,7 @@ func predict(m *model, op Op) prediction {
 		} else if script == "" || isBadScript(script) {
 			return rej
 		}
-		if !varsConvertible(op.Vars) || !varsFit(script, op.Vars) || (len(scriptDBRPs(script)) > 0) == (len(op.DBRPs) > 0) {
+		if !varsConvertible(op.Vars) || !varsFit(script, op.Vars) || (len(scriptDBRPs(script)) > 0) == (len(op.DBRPs) > 0) || script == sNoSrc {
 			return prediction{late: late}
 		}
 		return prediction{accept: true}
@@ -119,7 +119,7 @@ func predict(m *model, op Op) prediction {
 			}
 			script = op.Script
 		}
-		if len(scriptDBRPs(script)) > 0 && len(op.DBRPs) > 0 {
+		if (len(scriptDBRPs(script)) > 0 && len(op.DBRPs) > 0) || script == sNoSrc {
 			return prediction{late: late}
 		}
 		vs := t.Vars
@@ -154,7 +154,9 @@ func predict(m *model, op Op) prediction {
 		}
 		script := tm.Script
 		if op.Script != "" {
-			if isBadScript(op.Script) {
+			// (a script without stream/batch source passes the validation of a template
+			// update - the template keeps its type - but no task can run it)
+			if isBadScript(op.Script) && op.Script != sNoSrc {
 				return rej
 			}
 			script = op.Script
@@ -173,7 +175,7 @@ func predict(m *model, op Op) prediction {
 				// (a task moved from a script with a dbrp statement to one without is left
 				// without any dbrp and cannot start)
 				noDBRP := len(scriptDBRPs(script)) == 0 && len(scriptDBRPs(tm.Script)) > 0
-				if !varsFit(script, t.Vars) || startClass(script, d) == clsSyncFail || noDBRP {
+				if !varsFit(script, t.Vars) || startClass(script, d) == clsSyncFail || noDBRP || script == sNoSrc {
 					return prediction{late: "template-update-rolled-back"}
 				}
 			}
